@@ -83,7 +83,7 @@ func sentinelExits(fn *ssa.Function, errV ssa.Value, sentinel string) (bad []ssa
 				continue
 			}
 			n++
-			if !same(ret.Results[len(ret.Results)-1]) {
+			if !same(an.RetVal(ret, len(ret.Results)-1)) {
 				bad = append(bad, ret)
 			}
 		}
@@ -113,8 +113,8 @@ func c08(c *Ctx) {
 			if okSrc {
 				break
 			}
-			if len(p.Ret.Results) == 2 && an.IsNilConst(p.Ret.Results[1]) {
-				o := tr.OriginString(p.Ret.Results[0])
+			if len(p.Ret.Results) == 2 && an.IsNilConst(an.RetVal(p.Ret, 1)) {
+				o := tr.OriginString(an.RetVal(p.Ret, 0))
 				okSrc = strings.Contains(o, "ioutil.CancelableReader).Read#0")
 				r.Check(okSrc, "R08.F", "tcpConn.Read:source", c.pos(p.Ret.Pos()), "the byte count returned on success comes from "+simplifyOrigin(o))
 			}
@@ -220,7 +220,7 @@ func c08(c *Ctx) {
 				if !ok || len(ret.Results) != 2 {
 					continue
 				}
-				mi, ok := ret.Results[1].(*ssa.MakeInterface)
+				mi, ok := an.RetVal(ret, 1).(*ssa.MakeInterface)
 				if !ok || !strings.HasSuffix(typeString(mi.X.Type()), "transport.ErrCode") {
 					continue
 				}
@@ -327,6 +327,37 @@ func c08(c *Ctx) {
 			}
 		}
 		r.Check(len(bad) == 0, "R08.A", key, c.pos(body.Pos()), "9 lengths from 0 to 2^20 evaluated: "+strings.Join(bad, "; "))
+	}
+
+	// ---- R08.O: "the same sequence of byte strings" - each delivered message keeps its bytes ------------------------
+	r.Rule("R08.O", "every message a mode reader returns lives in a buffer made by that call: a reader that hands out a window of a buffer it keeps (and refills on the next call) changes the messages it delivered earlier", 2)
+	for _, m := range []string{"*abridged", "*intermediate"} {
+		rd := c.fn("R08.O", load.ModePkg, m, "ReadMsg")
+		if rd == nil {
+			continue
+		}
+		var bad []string
+		n := 0
+		for _, b := range rd.Blocks {
+			ret, ok := b.Instrs[len(b.Instrs)-1].(*ssa.Return)
+			if !ok || len(ret.Results) != 2 {
+				continue
+			}
+			if k, isConst := an.RetVal(ret, 0).(*ssa.Const); isConst && k.Value == nil {
+				continue
+			}
+			n++
+			why := ""
+			if !freshBytes(an.RetVal(ret, 0), 0, &why) {
+				bad = append(bad, sprintf("the message returned at %s is %s", c.pos(ret.Pos()), why))
+			}
+		}
+		key := "owned-result:" + strings.TrimPrefix(m, "*")
+		if n == 0 {
+			r.Undecide("R08.O", key, c.pos(rd.Pos()), "no exit returns a message")
+			continue
+		}
+		r.Check(len(bad) == 0, "R08.O", key, c.pos(rd.Pos()), sprintf("%d exit(s) return a message; %s", n, strings.Join(bad, "; ")))
 	}
 
 	// ---- R08.E ----------------------------------------------------------------------------------
@@ -636,7 +667,7 @@ func c08Framing(c *Ctx, tr *an.Tracer) {
 				ok := false
 				for _, b := range f.Blocks {
 					for _, in := range b.Instrs {
-						if ret, ok2 := in.(*ssa.Return); ok2 && len(ret.Results) == 1 && strings.HasPrefix(tr.OriginString(ret.Results[0]), "global:"+m.glob) {
+						if ret, ok2 := in.(*ssa.Return); ok2 && len(ret.Results) == 1 && strings.HasPrefix(tr.OriginString(an.RetVal(ret, 0)), "global:"+m.glob) {
 							ok = true
 						}
 					}
@@ -688,4 +719,38 @@ func globalByteArray(c *Ctx, pkg, name string) []int64 {
 		return nil
 	}
 	return globalByteArrayAST(pk, name)
+}
+
+// freshBytes: the slice was made by this activation of the function (make, a local array), possibly re-sliced.
+func freshBytes(v ssa.Value, d int, why *string) bool {
+	if d > 8 {
+		*why = "too deep to follow"
+		return false
+	}
+	switch x := v.(type) {
+	case *ssa.MakeSlice:
+		return true
+	case *ssa.Alloc:
+		return true
+	case *ssa.Slice:
+		return freshBytes(x.X, d+1, why)
+	case *ssa.Phi:
+		for _, e := range x.Edges {
+			if !freshBytes(e, d+1, why) {
+				return false
+			}
+		}
+		return true
+	case *ssa.UnOp:
+		if fa, ok := x.X.(*ssa.FieldAddr); ok {
+			*why = "a window of the field " + an.FieldName(fa.X.Type(), fa.Field) + ", which outlives the call"
+			return false
+		}
+		if g, ok := x.X.(*ssa.Global); ok {
+			*why = "a window of the package variable " + g.Name()
+			return false
+		}
+	}
+	*why = "not a buffer made in this call (" + v.Name() + ")"
+	return false
 }
